@@ -239,6 +239,7 @@ class CategoricalEncoder(Encoder[Categorical]):
         if values is None:
             self._categoricals = None
         else:
+            values     = list(values) #the levels must not follow later changes to the caller's list
             set_values = set(values)
             if len(values) != len(set_values): values = sorted(set_values)
             self._categoricals = {v: Categorical(v,values) for v in sorted(set_values) }
